@@ -5,9 +5,13 @@
    (INone | IInt z | ITuple l), [norm_idx n z] resolves a Python index (-n <= z < n) to a position.
    Selection predicates: [msel n idx p] (numpy mask of discrete/integers/rounded/precision: one bad index selects nothing),
    [bsel idx p] (impose_bounds: the position itself must be listed), [sel_pos n idx p] (sorting/monotonic).
-   Names ending in _refuted are counterexamples to a clause of the property on the faithful model (each reproduced on mystic and
-   listed in known_findings.d/C16.txt, except mono_py_fixed_refuted / monotonic_conforming_refuted / sorting_repeated_index_not_perm /
-   clip_nearest_* which only delimit hypotheses); names ending in _partial state what does hold. *)
+   Names ending in _refuted are counterexamples to a clause of the property on the faithful model: integers_int_unselected_refuted,
+   impose_as_offset_drift_refuted and impose_as_out_of_range_partner_refuted are reproduced on mystic and listed in
+   known_findings.d/C16.txt; mono_py_fixed_refuted / monotonic_conforming_refuted / sorting_repeated_index_not_perm / clip_nearest_*
+   only delimit hypotheses.  Names ending in _partial state what does hold.  Repaired in /repo and now proved as full clauses:
+   impose_at with a list target and dropped indices (impose_at_list_is_spec, impose_at_list_dropped_ok), synchronized (index, factor)
+   sources for every container (synchronized_tied_mul), tools.connected merging bridged groups (connected_wf,
+   connected_pair_same_group; impose_as_zero_offset_tied for the offset-free impose_as). *)
 From Coq Require Import ZArith QArith Qround Qabs Reals List Bool Arith Permutation Sorting.
 From MV Require Import Common.Num Common.NumR Common.Order Pure.Transforms Pure.Transforms_Proofs.
 Import ListNotations.
@@ -207,29 +211,29 @@ Proof. exact impose_at_others_unchanged. Qed.
 Print Assumptions C16_impose_at_others_unchanged.
 
 Theorem C16_impose_at_none_iff :
-  forall (N : Num) (index : list Z) (t : target N) (x : list (T N)), impose_at N index t x = None <-> (exists i : Z, In i index /\ (i < - Z.of_nat (length x))%Z) \/ (exists vs : list (T N), t = TList N vs /\ length vs <> length (filter (fun i : Z => (i <? Z.of_nat (length x))%Z) index) /\ length vs <> 1).
+  forall (N : Num) (index : list Z) (t : target N) (x : list (T N)), impose_at N index t x = None <-> match t with | TScalar _ _ => exists i : Z, In i index /\ (i < - Z.of_nat (length x))%Z | TList _ vs => exists iv : Z * T N, In iv (combine index vs) /\ (fst iv < - Z.of_nat (length x))%Z end.
 Proof. exact impose_at_none_iff. Qed.
 Print Assumptions C16_impose_at_none_iff.
 
 Theorem C16_impose_at_list_is_spec :
-  forall (N : Num) (index : list Z) (vs x : list (T N)), length vs = length index -> (forall i : Z, In i index -> norm_idx (length x) i <> None) -> impose_at N index (TList N vs) x = Some (impose_at_spec N index vs x).
+  forall (N : Num) (index : list Z) (vs x : list (T N)), (forall iv : Z * T N, In iv (combine index vs) -> (- Z.of_nat (length x) <= fst iv)%Z) -> impose_at N index (TList N vs) x = Some (impose_at_spec N index vs x).
 Proof. exact impose_at_list_is_spec. Qed.
 Print Assumptions C16_impose_at_list_is_spec.
 
+Theorem C16_impose_at_list_dropped_ok :
+  forall (N : Num) (index : list Z) (vs x : list (T N)), length vs = length index -> (forall i : Z, In i index -> (0 <= i)%Z) -> impose_at N index (TList N vs) x = Some (impose_at_spec N index vs x).
+Proof. exact impose_at_list_dropped_ok. Qed.
+Print Assumptions C16_impose_at_list_dropped_ok.
+
 Theorem C16_impose_at_list_pinned :
-  forall (N : Num) (index : list Z) (vs x y : list (T N)) (ps : list nat) (k : nat) (d : T N), impose_at N index (TList N vs) x = Some y -> length vs = length index -> norm_all (length x) index = Some ps -> NoDup ps -> k < length index -> nth (nth k ps 0) y d = nth k vs d.
+  forall (N : Num) (index : list Z) (vs x y : list (T N)) (ps : list nat) (k : nat) (d : T N), impose_at N index (TList N vs) x = Some y -> norm_all (length x) (map fst (filter (fun iv : Z * T N => (fst iv <? Z.of_nat (length x))%Z) (combine index vs))) = Some ps -> NoDup ps -> k < length ps -> nth (nth k ps 0) y d = nth k (map snd (filter (fun iv : Z * T N => (fst iv <? Z.of_nat (length x))%Z) (combine index vs))) d.
 Proof. exact impose_at_list_pinned. Qed.
 Print Assumptions C16_impose_at_list_pinned.
 
-Theorem C16_impose_at_list_dropped_refuted :
-  exists (index : list Z) (vs x : list (T NumQ)), length vs = length index /\ (forall i : Z, In i index -> (0 <= i)%Z) /\ impose_at NumQ index (TList NumQ vs) x = None /\ impose_at_spec NumQ index vs x = [1%Q; 0%Q].
-Proof. exact impose_at_list_dropped_refuted. Qed.
-Print Assumptions C16_impose_at_list_dropped_refuted.
-
-Theorem C16_impose_at_list_dropped_partial :
-  forall (N : Num) (index : list Z) (vs x : list (T N)), length vs = length index -> (forall i : Z, In i index -> (0 <= i)%Z) -> impose_at N index (TList N vs) x = None <-> (exists i : Z, In i index /\ (Z.of_nat (length x) <= i)%Z) /\ length vs <> 1.
-Proof. exact impose_at_list_dropped_partial. Qed.
-Print Assumptions C16_impose_at_list_dropped_partial.
+Theorem C16_impose_at_list_dropped_example :
+  impose_at NumQ [1%Z; 3%Z] (TList NumQ [0%Q; 2%Q]) [1%Q; 1%Q] = Some [1%Q; 0%Q].
+Proof. exact impose_at_list_dropped_example. Qed.
+Print Assumptions C16_impose_at_list_dropped_example.
 
 Theorem C16_impose_at_idempotent :
   forall (N : Num) (index : list Z) (t : target N) (x y : list (T N)), impose_at N index t x = Some y -> impose_at N index t y = Some y.
@@ -277,34 +281,24 @@ Proof. exact insert_missing_rest_is_x. Qed.
 Print Assumptions C16_insert_missing_rest_is_x.
 
 Theorem C16_synchronized_length :
-  forall (N : Num) (arr : bool) (mask : list (Z * source N)) (x : list (T N)), length (synchronized N arr mask x) = length x.
+  forall (N : Num) (mask : list (Z * source N)) (x : list (T N)), length (synchronized N mask x) = length x.
 Proof. exact synchronized_length. Qed.
 Print Assumptions C16_synchronized_length.
 
 Theorem C16_synchronized_others_unchanged :
-  forall (N : Num) (arr : bool) (mask : list (Z * source N)) (x : list (T N)) (p : nat) (d : T N), (forall kv : Z * source N, In kv mask -> norm_idx (length x) (fst kv) <> Some p) -> nth p (synchronized N arr mask x) d = nth p x d.
+  forall (N : Num) (mask : list (Z * source N)) (x : list (T N)) (p : nat) (d : T N), (forall kv : Z * source N, In kv mask -> norm_idx (length x) (fst kv) <> Some p) -> nth p (synchronized N mask x) d = nth p x d.
 Proof. exact synchronized_others_unchanged. Qed.
 Print Assumptions C16_synchronized_others_unchanged.
 
 Theorem C16_synchronized_tied :
-  forall (N : Num) (mask : list (Z * source N)) (x : list (T N)) (i j : Z) (pi pj : nat) (d : T N), sg_sources_untouched N (length x) mask -> sg_distinct_positions (length x) mask -> In (i, SIdx N j) mask -> norm_idx (length x) i = Some pi -> norm_idx (length x) j = Some pj -> nth pi (synchronized N false mask x) d = nth pj x d.
+  forall (N : Num) (mask : list (Z * source N)) (x : list (T N)) (i j : Z) (pi pj : nat) (d : T N), sg_sources_untouched N (length x) mask -> sg_distinct_positions (length x) mask -> In (i, SIdx N j) mask -> norm_idx (length x) i = Some pi -> norm_idx (length x) j = Some pj -> nth pi (synchronized N mask x) d = nth pj x d.
 Proof. exact synchronized_tied. Qed.
 Print Assumptions C16_synchronized_tied.
 
 Theorem C16_synchronized_tied_mul :
-  forall (N : Num) (mask : list (Z * source N)) (x : list (T N)) (i j0 : Z) (c : T N) (pi pj : nat) (d : T N), sg_sources_untouched N (length x) mask -> sg_distinct_positions (length x) mask -> In (i, SMul N j0 c) mask -> norm_idx (length x) i = Some pi -> norm_idx (length x) j0 = Some pj -> nth pi (synchronized N false mask x) d = mul N c (nth pj x d).
+  forall (N : Num) (mask : list (Z * source N)) (x : list (T N)) (i j0 : Z) (c : T N) (pi pj : nat) (d : T N), sg_sources_untouched N (length x) mask -> sg_distinct_positions (length x) mask -> In (i, SMul N j0 c) mask -> norm_idx (length x) i = Some pi -> norm_idx (length x) j0 = Some pj -> nth pi (synchronized N mask x) d = mul N c (nth pj x d).
 Proof. exact synchronized_tied_mul. Qed.
 Print Assumptions C16_synchronized_tied_mul.
-
-Theorem C16_synchronized_array_ignores_tuples :
-  forall (N : Num) (mask : list (Z * source N)) (x : list (T N)), (forall kv : Z * source N, In kv mask -> exists (j0 : Z) (c : T N), snd kv = SMul N j0 c) -> synchronized N true mask x = x.
-Proof. exact synchronized_array_ignores_tuples. Qed.
-Print Assumptions C16_synchronized_array_ignores_tuples.
-
-Theorem C16_synchronized_array_tuple_refuted :
-  exists x : list (T NumQ), synchronized NumQ true [(0%Z, SMul NumQ 1 2%Q)] x <> synchronized NumQ false [(0%Z, SMul NumQ 1 2%Q)] x.
-Proof. exact synchronized_array_tuple_refuted. Qed.
-Print Assumptions C16_synchronized_array_tuple_refuted.
 
 (* ---------------------------------------------------------------- rounding (Q) *)
 Theorem C16_rhe_nearest :
@@ -700,6 +694,21 @@ Theorem C16_unique_none_cases :
 Proof. exact unique_none_cases. Qed.
 Print Assumptions C16_unique_none_cases.
 
+Theorem C16_connected_wf :
+  forall pairs : list (Z * Z), wf (connected pairs).
+Proof. exact connected_wf. Qed.
+Print Assumptions C16_connected_wf.
+
+Theorem C16_connected_pair_same_group :
+  forall (pairs : list (Z * Z)) (i j : Z), In (i, j) pairs -> i <> j -> exists kv : Z * list Z, In kv (connected pairs) /\ holds i kv = true /\ holds j kv = true.
+Proof. exact connected_pair_same_group. Qed.
+Print Assumptions C16_connected_pair_same_group.
+
+Theorem C16_connected_only_mentions :
+  forall (z : Z) (pairs : list (Z * Z)), held z (connected pairs) -> exists ij : Z * Z, In ij pairs /\ (z = fst ij \/ z = snd ij).
+Proof. exact connected_only_mentions. Qed.
+Print Assumptions C16_connected_only_mentions.
+
 Theorem C16_impose_as_length :
   forall (mask : list (Z * Z)) (off : T NumR) (x y : list R), impose_as NumR mask off x = Some y -> length y = length x.
 Proof. exact impose_as_length. Qed.
@@ -720,10 +729,20 @@ Theorem C16_impose_as_single_pair_idempotent :
 Proof. exact impose_as_single_pair_idempotent. Qed.
 Print Assumptions C16_impose_as_single_pair_idempotent.
 
-Theorem C16_impose_as_bridging_pair_refuted :
-  exists (mask : list (Z * Z)) (x : list (T NumQ)) (y : list Q), qred_result (impose_as NumQ mask 0%Q x) = Some y /\ mask = [(2%Z, 3%Z); (0%Z, 1%Z); (1%Z, 2%Z)] /\ ~ (nth 2 y 0 == nth 1 y 0)%Q.
-Proof. exact impose_as_bridging_pair_refuted. Qed.
-Print Assumptions C16_impose_as_bridging_pair_refuted.
+Theorem C16_impose_as_zero_offset_tied :
+  forall (mask : list (Z * Z)) (x y : list R) (i j : Z) (d : R), (forall ij : Z * Z, In ij mask -> (0 <= fst ij < Z.of_nat (length x))%Z /\ (0 <= snd ij < Z.of_nat (length x))%Z) -> impose_as NumR mask 0%R x = Some y -> In (i, j) mask -> nth (Z.to_nat j) y d = nth (Z.to_nat i) y d.
+Proof. exact impose_as_zero_offset_tied. Qed.
+Print Assumptions C16_impose_as_zero_offset_tied.
+
+Theorem C16_impose_as_zero_offset_group_value :
+  forall (mask : list (Z * Z)) (x y : list R) (kv : Z * list Z) (z : Z) (d : R), (forall ij : Z * Z, In ij mask -> (0 <= fst ij < Z.of_nat (length x))%Z /\ (0 <= snd ij < Z.of_nat (length x))%Z) -> impose_as NumR mask 0%R x = Some y -> In kv (connected mask) -> holds z kv = true -> nth (Z.to_nat z) y d = nth (Z.to_nat (fst kv)) x d.
+Proof. exact impose_as_zero_offset_group_value. Qed.
+Print Assumptions C16_impose_as_zero_offset_group_value.
+
+Theorem C16_impose_as_bridging_pair_now_tied :
+  qred_result (impose_as NumQ [(2%Z, 3%Z); (0%Z, 1%Z); (1%Z, 2%Z)] 0%Q [9%Q; 8%Q; 7%Q; 6%Q]) = Some [9%Q; 9%Q; 9%Q; 9%Q].
+Proof. exact impose_as_bridging_pair_now_tied. Qed.
+Print Assumptions C16_impose_as_bridging_pair_now_tied.
 
 Theorem C16_impose_as_offset_drift_refuted :
   exists (mask : list (Z * Z)) (off : T NumQ) (x : list (T NumQ)) (y : list Q), qred_result (impose_as NumQ mask off x) = Some y /\ (forall i j : Z, In (i, j) mask -> (nth (Z.to_nat j) x 0 == nth (Z.to_nat i) x 0 + off)%Q) /\ y <> x /\ qred_result (impose_as NumQ mask off y) <> Some y.
